@@ -59,6 +59,8 @@ def run_exact(prog):
     if r.shadow.fail is not None:
         return log, ("order", "", r.shadow.fail), r
     if r.runnable_fail is not None:
+        if "raised" in r.runnable_fail:
+            return log, ("domain", r.runnable_fail.split()[-1], r.runnable_fail), r
         return log, ("runnable", "", r.runnable_fail), r
     return log, None, r
 
@@ -124,8 +126,9 @@ def report_exact(ctx, prog, fail, label):
         small, f2 = prog, fail
         log = run_exact(prog)[0]
     if cls == "domain":
-        ctx.violation(f"domain:{f2[1]}:{pri_kinds(small)}",
-                      f"{label}a priority of the documented domain is not accepted by the priority loop: {f2[2]}",
+        ctx.violation(f"domain:{f2[1]}",
+                      f"{label}a priority of the documented domain (kinds used: {pri_kinds(small)}) is not accepted "
+                      f"by the priority loop: {f2[2]}",
                       {"prog": small, "clause": "exact"}, expected="no exception", observed=log,
                       theorem="Asynkit.C10.priority_domain_total")
     elif cls == "order":
@@ -153,7 +156,7 @@ def report_equal(ctx, prog, fail, label):
         small = prog
         z, a, b, f2, _ = run_equal(prog)
     if cls == "domain":
-        ctx.violation(f"domain:{f2[1]}:{pri_kinds(z)}",
+        ctx.violation(f"domain:{f2[1]}",
                       f"{label}a priority of the documented domain is not accepted by the priority loop: {f2[2]}",
                       {"prog": z, "clause": "equal"}, expected="no exception", observed=a,
                       theorem="Asynkit.C10.priority_domain_total")
